@@ -108,7 +108,7 @@ class Check(PropCheck):
             while n['parent'] is not None:
                 n = nodes[n['parent']]; d += 1
             return d
-        def want(name, value, kind='int'):
+        def want(name, value, kind='int', abs_tol=0.0):
             i, l = res[name]
             if l[0] != 'ok':
                 bad.append((i, '%s refused: %s' % (name, ' '.join(l[:2])))); return
@@ -121,7 +121,7 @@ class Check(PropCheck):
                     bad.append((i, '%s = %s, definition gives %s' % (name, got, float(value))))
             else:
                 x = vf.fl(l[1])
-                if not (abs(x - value) <= 1e-12 * max(1.0, abs(value))):
+                if not (abs(x - value) <= abs_tol + 1e-12 * max(1.0, abs(value))):
                     bad.append((i, '%s = %r, definition gives %r' % (name, x, value)))
         def refused(name, why):
             i, l = res[name]
@@ -187,7 +187,8 @@ class Check(PropCheck):
             N = len(leaves)
             want('cherries', cher); want('colless', col); want('sackin', sac)
             if N >= 2:
-                want('colless_yule', (col - (N * math.log(N) + (0.57721566 - 1. - math.log(2.0)) * N)) / N, 'float')
+                # Euler's constant to full precision; the crate's 8-digit constant deviates by 4.9e-9 (accepted: 1e-8), a cruder one is not
+                want('colless_yule', (col - (N * math.log(N) + (0.5772156649015329 - 1. - math.log(2.0)) * N)) / N, 'float', 1e-8)
                 want('colless_pda', col / N ** 1.5, 'float')
                 want('sackin_yule', (sac - 2.0 * N * sum(1.0 / i for i in range(2, N + 1))) / N, 'float')
                 want('sackin_pda', sac / N ** 1.5, 'float')
